@@ -363,5 +363,118 @@ func c04Jobs(tier string) []*SeqJob {
 		return guard(func() (string, string) { a, b, _ := runProgram(r, prog, path, "m"); return a, b })
 	}
 	_ = time.Now
-	return []*SeqJob{job}
+	return []*SeqJob{job, c04SharedRootJob(tier)}
+}
+
+// c04SharedRootJob: all programs of an alphabet of strings that a sanitizer
+// shortens (multi-byte runes replaced by a 1-byte replacement) run against ONE
+// root, so that whatever the registry remembers about one derivation (cached
+// raw keys) can affect the next. For every multi-byte string v the alphabet
+// also holds sanitize(v) followed by the last bytes of v (what a key buffer
+// reused for the shorter sanitized key would still contain).
+func c04SharedRootJob(tier string) *SeqJob {
+	alnum := tally.ValidCharacters{Ranges: tally.AlphanumericRange, Characters: tally.UnderscoreCharacters}
+	san := &tally.SanitizeOptions{NameCharacters: alnum, KeyCharacters: alnum, ValueCharacters: alnum, ReplacementCharacter: '_'}
+	base := []string{"é1", "€ab", "a😀", "x"}
+	var strs []string
+	for _, v := range base {
+		strs = append(strs, v)
+		sv := refSanitize(alnum, '_', v)
+		for k := 1; k <= len(v)-len(sv); k++ {
+			strs = append(strs, sv+v[len(v)-k:]) // still valid after sanitizing? only if the tail is ASCII
+		}
+	}
+	var alpha []progOp
+	seen := map[string]bool{}
+	for _, v := range strs {
+		if seen[v] {
+			continue
+		}
+		seen[v] = true
+		alpha = append(alpha, progOp{tag: true, tags: map[string]string{"env": v}}, progOp{sub: v})
+	}
+	depth := tierInt(tier, 2, 3)
+	run := func(cached bool, prefix string, order int) (string, string, int) {
+		rec := &Recorder{NoPoints: true}
+		o := scopeOpts(rec, cached, false)
+		o.Prefix, o.SanitizeOptions = prefix, san
+		root, _ := tally.VerifNewRootScope(o, 0, 1)
+		cfg := rootCfg{prefix: prefix, san: san}
+		count := map[string]int64{}
+		steps := 0
+		var progs [][]int
+		enumSeqs(len(alpha), depth, func(seq []int) bool {
+			if len(seq) > 0 {
+				progs = append(progs, append([]int{}, seq...))
+			}
+			return true
+		})
+		if order == 1 { // reversed order: what is remembered depends on who came first
+			for i, j := 0, len(progs)-1; i < j; i, j = i+1, j-1 {
+				progs[i], progs[j] = progs[j], progs[i]
+			}
+		}
+		for _, seq := range progs {
+			s := tally.Scope(root)
+			prog := make([]progOp, len(seq))
+			for i, k := range seq {
+				prog[i] = alpha[k]
+				if alpha[k].tag {
+					s = s.Tagged(cloneTags(alpha[k].tags))
+				} else {
+					s = s.SubScope(alpha[k].sub)
+				}
+			}
+			s.Counter("m").Inc(1)
+			steps += len(seq) + 1
+			p, tg := refIdentity(cfg, prog)
+			count[refFullName(cfg, p, "m")+tagString(tg)]++
+		}
+		tally.VerifReportOnce(root)
+		got := sumCounters(rec.Log, 0, len(rec.Log))
+		for id, w := range count {
+			if got[id] != w {
+				return "delivered-under-wrong-name-or-tags", fmt.Sprintf("one root (prefix %q, %s), %d derivations: %d increments were made through derivations denoting %s, %d were delivered under it", prefix, b2s(cached), len(progs), w, id, got[id]), steps
+			}
+		}
+		for id, g := range got {
+			if count[id] != g {
+				return "delivered-under-wrong-name-or-tags", fmt.Sprintf("one root (prefix %q): %d delivered under %s, %d recorded", prefix, g, id, count[id]), steps
+			}
+		}
+		return "", "", steps
+	}
+	j := &SeqJob{Property: "C04", Name: "programs-sharing-one-sanitizing-root"}
+	j.Run = func(ctx *SeqCtx) {
+		for _, a := range alpha {
+			ctx.Alphabet(a.String())
+		}
+		for _, cached := range []bool{false, true} {
+			for _, prefix := range []string{"", "p"} {
+				for order := 0; order < 2; order++ {
+					cached, prefix, order := cached, prefix, order
+					steps := 0
+					cl, det := guard(func() (string, string) { c, d, s := run(cached, prefix, order); steps = s; return c, d })
+					ops := []string{fmt.Sprint(cached), prefix, fmt.Sprint(order)}
+					ctx.Case(steps, true, func() string { return fmt.Sprint(ops) })
+					ctx.State(fmt.Sprint(ops))
+					if cl != "" {
+						ctx.Fail(cl, det, ops)
+						if ctx.viol != nil {
+							return
+						}
+					}
+				}
+			}
+		}
+		ctx.DepthDone(depth)
+	}
+	j.Replay = func(ops []string) (string, string) {
+		var cached bool
+		var order int
+		fmt.Sscan(ops[0], &cached)
+		fmt.Sscan(ops[2], &order)
+		return guard(func() (string, string) { c, d, _ := run(cached, ops[1], order); return c, d })
+	}
+	return j
 }
